@@ -1,16 +1,128 @@
-"""Replay runner front end (DESIGN.md 3.6): tries to turn a failed obligation into a concrete failing input on the
-real code.  It never decides anything: no input found => the VIOLATION line ends with no-failing-input-found."""
+"""Concrete-input runner front end (DESIGN.md 3.6).
+
+Two uses, neither of which counts as proof:
+  (a) after a contract obligation failed: look for a concrete failing input on the REAL code (replay);
+  (b) bounded stand-in: for functions outside the verifier's reach, and when the deductive step is UNDECIDED.
+A case is reported only when the real crate's observable result differs from the executable mirror of the oracle
+(replay/src/model.rs), which agrees with the real code on the whole pool on the unchanged tree.
+"""
 import json
 import os
 import subprocess
+import time
 
 VERIF = os.path.dirname(os.path.dirname(os.path.abspath(__file__)))
+TARGET = os.path.join(VERIF, '.cache', 'replay-target')
+BIN = os.path.join(TARGET, 'debug', 'reval-replay')
+
+# which pools can witness which property
+FAMILIES = {
+    'C01': ['ops', 'compose'], 'C02': ['ops', 'compose', 'lazy'], 'C03': ['ops', 'compose'], 'C04': ['ops', 'compose'],
+    'C05': ['lazy'], 'C09': ['ruleset'], 'C10': ['ops', 'ruleset', 'builder'], 'C11': ['ruleset', 'lazy'],
+    'C15': ['builder'], 'C17': ['convert'], 'C13': ['ruleset'],
+}
+BOUNDS = ('operand pool of 65 boundary values per operand position (every type, its extremes, None, empty/nested containers); '
+          'expression depth 1 (ops) / 2 (compose, 12-value pool); lazy: 5 conditions x 5 leaves per operator, every error position in '
+          '4-element lists/maps; rulesets of <= 3 rules from 23 building blocks, 2 consecutive evaluations; builder: 53 function names, '
+          'all 3-sequences over 4 rule names through with_rule / with_rules, 5 symbol mixes; convert: type bounds +-1 and wrong kinds')
+
+_build_cache = {}
+
+
+def build():
+    """(ok, message).  Builds the replay crate against /repo's current working tree."""
+    if 'r' in _build_cache:
+        return _build_cache['r']
+    env = dict(os.environ)
+    env['CARGO_TARGET_DIR'] = TARGET
+    env['CARGO_NET_OFFLINE'] = 'true'
+    try:
+        p = subprocess.run(['cargo', 'build', '--offline', '--quiet'], cwd=os.path.join(VERIF, 'replay'), env=env,
+                           stdout=subprocess.PIPE, stderr=subprocess.STDOUT, universal_newlines=True, timeout=1200)
+        ok = p.returncode == 0 and os.path.exists(BIN)
+        msg = '' if ok else p.stdout[-1500:]
+    except Exception as e:  # noqa
+        ok, msg = False, str(e)
+    _build_cache['r'] = (ok, msg)
+    return ok, msg
+
+
+_run_cache = {}
+
+
+def run_families(fams):
+    """returns (cases_by_family, failing_cases list of dict, error)"""
+    ok, msg = build()
+    if not ok:
+        return {}, [], 'replay crate does not build against the working tree: ' + msg
+    key = tuple(fams)
+    if key in _run_cache:
+        return _run_cache[key]
+    t0 = time.time()
+    try:
+        p = subprocess.run([BIN] + list(fams), stdout=subprocess.PIPE, stderr=subprocess.PIPE, universal_newlines=True, timeout=600)
+    except subprocess.TimeoutExpired:
+        return {}, [], 'replay runner timed out'
+    cases = {}
+    fails = []
+    for line in p.stdout.split('\n'):
+        line = line.strip()
+        if not line.startswith('{'):
+            continue
+        try:
+            d = json.loads(line)
+        except Exception:
+            continue
+        if 'summary' in d:
+            cases[d['summary']] = d['cases']
+        else:
+            fails.append(d)
+    err = None
+    if p.returncode != 0:
+        err = 'replay runner exited %d: %s' % (p.returncode, p.stderr[-500:])
+    r = (cases, fails, err)
+    _run_cache[key] = r
+    return r
+
+
+def failing_for(prop, fams=None):
+    fams = fams or FAMILIES.get(prop, [])
+    if not fams:
+        return {}, [], None
+    cases, fails, err = run_families(fams)
+    mine = [f for f in fails if prop in f.get('tags', [])]
+    return cases, mine, err
 
 
 def try_replay(prop, failure, sdir):
-    return {'input': None, 'note': 'replay pool not built for this clause family'}
+    """failure: dict with 'clause' and 'fn'.  Returns dict(input=..., observed=..., expected=..., note=...)."""
+    cases, mine, err = failing_for(prop)
+    if err:
+        return {'input': None, 'note': err}
+    if not mine:
+        return {'input': None, 'note': 'no failing input in the replay pool (%s cases over families %s)' % (sum(cases.values()), sorted(cases))}
+    fn = failure.get('fn', '').split('::')[-1]
+    best = [f for f in mine if f.get('hint', '').startswith(fn + '.')] or [f for f in mine if fn and fn in f.get('input', '')] or mine
+    f = best[0]
+    return {'input': f['input'], 'observed': f['observed'], 'expected': f['expected'], 'family': f['family'],
+            'note': 'found by the replay pool (%d failing of %d cases)' % (len(mine), sum(cases.values()))}
 
 
 def rerun(d):
-    print(json.dumps(d.get('failing_input')))
-    return 1
+    """re-run the families and show whether the recorded input still fails on the current working tree"""
+    _build_cache.clear()
+    _run_cache.clear()
+    fam = d.get('family')
+    if not fam:
+        print(json.dumps(d.get('failing_input')))
+        return 1
+    cases, fails, err = run_families([fam])
+    if err:
+        print(err)
+        return 2
+    hit = [f for f in fails if f.get('input') == d.get('failing_input')]
+    if hit:
+        print('REPRODUCED on the current tree: input=%s observed=%s expected=%s' % (hit[0]['input'], hit[0]['observed'], hit[0]['expected']))
+        return 1
+    print('not reproduced on the current tree (input now behaves as expected): %s' % d.get('failing_input'))
+    return 0
